@@ -30,6 +30,7 @@ func init() {
 			{ID: "C10-R6", Title: "spawned and cloned calls run on a clone made for that call", Floor: 2, Run: freshClonePerCall},
 			{ID: "C10-R7", Title: "Spawn hands the new thread a copy of the arguments", Floor: 1, Run: spawnCopiesArgs},
 			{ID: "C10-R8", Title: "arguments of a spawned call are evaluated at the spawn site (partial mode off for operands)", Floor: 2, Run: partialModeOffForOperands},
+			{ID: "C10-R9", Title: "clones get their own copy of the mutex-guarded VM maps (shared with C09-R5)", Floor: 2, Run: c09r5},
 		},
 	})
 }
